@@ -9,7 +9,8 @@
 //                {0,1,63,64,1023,1024,-1,-5,INT32_MAX} (180 operations), BFS over histories with histories
 //                reaching the same 1024-bit contents merged (CpuSet has no state besides its bits), each
 //                (state,op) replayed on a fresh object and compared with a std::set<int> model restricted to
-//                [0,1024).  In addition every sequence up to depth U is run WITHOUT merging.
+//                [0,1024).  In addition every sequence up to depth U is run WITHOUT merging (against the same
+//                reference semantics on a 1024-bit vector, which is cheap to copy per node).
 //  (b) parser  : every string up to length L over {'0','1','9',',','-',' ','\n','x'} plus every list of
 //                <=3 items (single id or lo-hi, bounds from the non-negative ids) with/without a trailing
 //                newline.  Reference grammar:  list := "" | item ("," item)* ; item := num | num "-" num with
@@ -206,9 +207,7 @@ static bool opTouchesRange(const Op& o) {
   if (o.kind < 2) return o.a >= 0 && o.a < kCap;
   return std::max<int64_t>(o.a, 0) < std::min<int64_t>(o.b, kCap);
 }
-static std::string checkAlgebraState(const CpuSet& cs, const std::set<int>& m) {
-  Bits exp;
-  for (int v : m) exp.set((size_t)v);
+static std::string checkAlgebraBits(const CpuSet& cs, const Bits& exp) {
   Bits got = bitsOf(cs);
   if (got != exp) {
     Bits d = got ^ exp;
@@ -217,8 +216,23 @@ static std::string checkAlgebraState(const CpuSet& cs, const std::set<int>& m) {
   }
   std::string e = checkOutside(cs, got);
   if (!e.empty()) return e;
-  if (cs.count() != (int32_t)m.size()) return seq::fmt("count()=%d, model size %zu", cs.count(), m.size());
+  if (cs.count() != (int32_t)exp.count()) return seq::fmt("count()=%d, model size %zu", cs.count(), exp.count());
   return "";
+}
+static std::string checkAlgebraState(const CpuSet& cs, const std::set<int>& m) {
+  Bits exp;
+  for (int v : m) exp.set((size_t)v);
+  if (exp.count() != m.size()) return "internal: model/bitset mismatch";
+  return checkAlgebraBits(cs, exp);
+}
+// the same reference semantics on a 1024-bit vector (cheap to copy; used by the unmerged cross-check run only)
+static void applyModelBits(Bits& m, const Op& o) {
+  if (o.kind < 2) {
+    if (o.a >= 0 && o.a < kCap) m.set((size_t)o.a, o.kind == 0);
+    return;
+  }
+  int64_t lo = std::max<int64_t>(o.a, 0), hi = std::min<int64_t>(o.b, kCap);
+  for (int64_t i = lo; i < hi; i++) m.set((size_t)i, o.kind == 2);
 }
 static std::string keyOf(const Bits& b) {
   std::string k(128, '\0');
@@ -295,15 +309,15 @@ static void algebraMerged(int depth, std::string& closure) {
   mergeChunk(c);
 }
 
-static void dfsUnmerged(const CpuSet& cs, const std::set<int>& m, std::vector<Op>& hist, int left, Chunk& c) {
+static void dfsUnmerged(const CpuSet& cs, const Bits& m, std::vector<Op>& hist, int left, Chunk& c) {
   for (const Op& op : g_ops) {
     CpuSet c2 = cs;
-    std::set<int> m2 = m;
+    Bits m2 = m;
     applyReal(c2, op);
-    applyModel(m2, op);
+    applyModelBits(m2, op);
     hist.push_back(op);
     c.evals++;
-    std::string e = checkAlgebraState(c2, m2);
+    std::string e = checkAlgebraBits(c2, m2);
     if (!e.empty()) c.fail("algebra-unmerged", histText(hist) + ": " + e, "algebra " + histText(hist));
     if (left > 1) dfsUnmerged(c2, m2, hist, left - 1, c);
     hist.pop_back();
@@ -312,14 +326,14 @@ static void dfsUnmerged(const CpuSet& cs, const std::set<int>& m, std::vector<Op
 static void algebraUnmerged(int depth) {
   runChunks(g_ops.size(), [&](size_t i, Chunk& c) {
     CpuSet cs;
-    std::set<int> m;
+    Bits m;
     std::vector<Op> hist;
     const Op& op = g_ops[i];
     applyReal(cs, op);
-    applyModel(m, op);
+    applyModelBits(m, op);
     hist.push_back(op);
     c.evals++;
-    std::string e = checkAlgebraState(cs, m);
+    std::string e = checkAlgebraBits(cs, m);
     if (!e.empty()) c.fail("algebra-unmerged", histText(hist) + ": " + e, "algebra " + histText(hist));
     if (depth > 1) dfsUnmerged(cs, m, hist, depth - 1, c);
   });
@@ -711,7 +725,7 @@ int main(int argc, char** argv) {
 
   report.domain = seq::fmt(
       "(a) all op sequences up to depth %d over 180 ops {add,remove}x9 ids + {addRange,removeRange}x81 id pairs, ids {0,1,63,64,1023,1024,-1,-5,INT32_MAX}, "
-      "histories merged by 1024-bit contents [%s], plus all sequences up to depth %d unmerged; contains over [-8,1032)+far probes and count compared with "
+      "histories merged by 1024-bit contents [%s], plus all sequences up to depth %d unmerged (bit-vector model); contains over [0,1024)+probes outside and count compared with "
       "std::set after every step. (b) all strings of length 0..%d over {0,1,9,comma,-,space,\\n,x} plus all lists of 1..3 items (id or lo-hi incl. reversed, "
       "bounds from {0,1,63,64,1023,1024,INT32_MAX}) with/without trailing \\n; exact set required for well-formed lists, only in-range/no-UB otherwise. "
       "(c) all topologies with 0..%d CPUs: all set partitions into L2 groups x all maps L2 group->{unknown,L3#0,#1,#2} x maxGroupSize 1..%d x 2 cpu-id maps "
